@@ -283,6 +283,9 @@ void shim_reset();
 // ---- fd layer / uring per-run reset (weak: only present in I/O workloads)
 void fdlayer_reset() __attribute__((weak));
 void fdlayer_end_of_run() __attribute__((weak));
+void uring_reset() __attribute__((weak));
+void uring_end_of_run() __attribute__((weak));
+void uring_on_close(int fd) __attribute__((weak));
 
 // ---- crash
 void crash_install();
